@@ -3,8 +3,10 @@
 Oracle: an independent tree walker + live-link model + strong-connectivity
 computation, all from the literal case description."""
 import importlib
+import contextlib
 import random
 
+from . import c11
 from ..core import check, Violation, Rejected
 from ..gen import par
 
@@ -35,7 +37,7 @@ ASSUMPTIONS = [
     "multisets, are compared)",
     "a sink allocated an empty core range expects no leaf",
 ]
-FLOORS = {"own_core_resource": 500, "tree_validated": 500, "hop_checked": 5000,
+FLOORS = {"extreme_tie_breaks": 2000, "own_core_resource": 500, "tree_validated": 500, "hop_checked": 5000,
           "repair_invoked": 100, "must_succeed": 200,
           "avoid_dead_links:reparent": 5, "leaf_checked": 2000}
 SHARDS = {"quick": 16, "thorough": 64}
@@ -377,25 +379,35 @@ def run(case, ctx):
         for i, net in enumerate(nets):
             random.seed(case["tie"] + i)
             del repaired[:]
+            xr = contextlib.nullcontext()
+            if (case["tie"] >> 3) % 5 == 0:
+                # "all outcomes of the tie-breaks": every draw at the lowest
+                # or highest value its primitive can return
+                import rig.geometry as g_
+                ru_ = importlib.import_module(
+                    "rig.place_and_route.route.utils")
+                xr = c11.extreme_tie_breaks(case["tie"] * 31 + i, g_, ru_)
+                ctx.hit("extreme_tie_breaks")
             try:
-                if form in (3, 7) and case["radius"] == 20 and \
-                        core_res is par_mod.Cores:
-                    # defaults left out
-                    routes = ner.route(vr, [net], machine, constraints,
-                                       place, allocations)
-                elif form in (4, 5):
-                    routes = ner.route(
-                        vertices_resources=vr, nets=[net], machine=machine,
-                        constraints=constraints, placements=place,
-                        allocations=allocations, core_resource=core_res,
-                        radius=case["radius"])
-                elif form == 6:
-                    routes = ner.route(vr, [net], machine, constraints, place,
-                                       allocations, core_res, case["radius"])
-                else:
-                    routes = ner.route(vr, [net], machine, constraints, place,
-                                       allocations, core_res,
-                                       radius=case["radius"])
+              with xr:
+                  if form in (3, 7) and case["radius"] == 20 and \
+                          core_res is par_mod.Cores:
+                      # defaults left out
+                      routes = ner.route(vr, [net], machine, constraints,
+                                         place, allocations)
+                  elif form in (4, 5):
+                      routes = ner.route(
+                          vertices_resources=vr, nets=[net], machine=machine,
+                          constraints=constraints, placements=place,
+                          allocations=allocations, core_resource=core_res,
+                          radius=case["radius"])
+                  elif form == 6:
+                      routes = ner.route(vr, [net], machine, constraints, place,
+                                         allocations, core_res, case["radius"])
+                  else:
+                      routes = ner.route(vr, [net], machine, constraints, place,
+                                         allocations, core_res,
+                                         radius=case["radius"])
             except exc.MachineHasDisconnectedSubregion as e:
                 check(not sc, "failed-on-connected-machine",
                       "MachineHasDisconnectedSubregion (%s) although every "
